@@ -50,6 +50,10 @@ OBS = [0.0, 0.25, float("nan"), 5e-324, 1e300, -0.0]
 # a loader that normalises unicode would merge / rewrite them
 NAMEX = ["", "a", "é", "药物-长名字", "ctl", "a b ", "e\u0301", "\u212b"]
 CONTROLX = ["", "ctl", "é"]
+# names and doses whose texts coincide when glued together without a separator ("d1"+"10.5" == "d11"+"0.5"): a writer or reader
+# that keys rows on a concatenated string merges two different conditions
+GLUE_NAMES = ["d", "d1", "d11", "1", ""]
+GLUE_DOSES = [0.5, 10.5, 1.0, 11.0, 0.0, 10.0]
 
 BOUNDS = {
     "quick": {
@@ -61,6 +65,7 @@ BOUNDS = {
         "holdout": "3 parents (3-4 rows), fractions 0, 0.5, 1, both hold-out functions, full choice tree",
         "names": "1-row screens over 8^3 name triples x 3 control names; 2-row screens over all 64 ordered name pairs (names incl. empty, CJK, trailing blank, decomposed and compatibility unicode)",
         "merged": "3-4 plate screens after one in-place Plate.merge (every ordered pair), then 3 save/load cycles",
+        "glue": "all ordered pairs of cells over 5 digit-suffixed names x 6 doses (texts that coincide when concatenated), as 2-row arity-1 and as 1-row arity-2 screens; sample / plate names from the same names",
         "many_ids": "sparse probes with exactly 255, 256, 257, 65535, 65536, 65537 distinct conditions and samples",
         "empty": "0 rows, arity 1..3, 2 control names, with and without a supplied mapping",
         "cycles": "screen: 2 everywhere, 3 for obsmask / names / empty; experiment space: 1 resp. 2",
@@ -283,6 +288,8 @@ def plan(tier, seed):
     for n in (255, 256, 257, 65535, 65536, 65537):
         items.append({"k": "manyids", "n": n})
     items.append({"k": "tinydoses"})
+    for g in range(len(GLUE_NAMES) * len(GLUE_DOSES)):
+        items.append({"k": "glue", "first": g})
     for c in c01.CONTROLS[:2]:
         for rows_per in ([1, 1, 1], [2, 1, 2], [1, 2, 1, 1]):
             items.append({"k": "merged", "control": c, "rows_per": rows_per})
@@ -571,6 +578,19 @@ def _run_item(item, col, tier, tmp):
         for doses in ([2.5e-7, 5e-7, 1e-6, 1.0000001e-6], [1e-9, 2e-9, 1e-9, 3e-9, 4e-10], [1.0, 1.0000001, 1.0000002], [5e-324, 1e-300, 1e-7, 4.9e-7]):
             for control in ("", "ctl"):
                 run_case({"kind": "tinydoses", "doses": doses, "control": control, "cycles": 3}, col, tmp)
+        return
+    if k == "glue":
+        cells = [(n, d) for n in GLUE_NAMES for d in GLUE_DOSES]
+        a = cells[item["first"]]
+        for j, b in enumerate(cells):
+            sn = [GLUE_NAMES[j % 5], GLUE_NAMES[(j // 5) % 5]]
+            spec = {"tn": [[a[0]], [b[0]]], "td": [[a[1]], [b[1]]], "sn": sn, "pn": sn[::-1], "obs": [0.25, 0.5], "mask": [True, True]}
+            case = {"kind": "screen", "family": "glue", "control": "", "spec": spec, "cycles": 2}
+            run_case(case, col, tmp)
+            spec = {"tn": [[a[0], b[0]]], "td": [[a[1], b[1]]], "sn": sn[:1], "pn": sn[1:], "obs": [0.25], "mask": [False]}
+            run_case({"kind": "screen", "family": "glue", "control": "1", "spec": spec, "cycles": 2}, col, tmp)
+            if j == 0:
+                col.sample(case)
         return
     if k == "merged":
         # screens whose plates were merged in place (Plate.merge rewrites plate names and ids of the live screen), then saved
